@@ -7,7 +7,7 @@
    invariants evaluated inside real solver runs at every hook event. *)
 From SV Require Import Cxx Ops LinAlg RngGen Arnoldi.
 From mathcomp Require Import all_ssreflect all_algebra.
-From SV Require Import Krylov OpsF ArnoldiPf ArnoldiLoop ArnoldiOrth.
+From SV Require Import Krylov OpsF ArnoldiPf ArnoldiLoop ArnoldiOrth LanczosLoop.
 Set Implicit Arguments. Unset Strict Implicit. Unset Printing Implicit Defensive.
 Import GRing.Theory.
 Local Open Scope ring_scope.
@@ -156,3 +156,35 @@ Theorem C07_model_factorize_full_invariant : forall (F : rcfType) (near0 eps l71
                      fk (OpsF F) F' = to_m & Full Arows n m to_m F'].
 Proof. move=> F near0 eps l717 Arows n m from_k to_m Fc cnt np e0 sA k0 kt kf fu bt; exact: (@factorize_full F near0 eps l717 Arows n m bt np e0 sA from_k to_m Fc cnt (erefl _)). Qed.
 Print Assumptions C07_model_factorize_full_invariant.
+
+(* ---- the same for the model of Lanczos::factorize_from (lanczos_step: the path of every SYMMETRIC solver), for a self-adjoint operator.
+   FullL k Fc (proofs/LanczosLoop.v) := shapes; A v_i = sum_(j<k) T(j,i) v_j (+ f for i = k - 1) for every i < k; T(j,i) = 0 outside the built
+   tridiagonal band (in particular T is tridiagonal and the not yet built part is zero); V_k' V_k = I; V_k' f = 0; beta = |f|.
+   The three-term recurrence only ever subtracts the components along v_(k-1) and v_k; that the new residual is orthogonal to ALL earlier
+   basis vectors follows from the relation of the earlier columns and the self-adjointness - hence in exact arithmetic the near-breakdown
+   test of the model does not fire and its re-orthogonalisation loop makes no pass.  For every from_k < to_m <= m and every run in which no
+   step starts from a breakdown: *)
+Theorem C07_model_lanczos_full_invariant : forall (F : rcfType) (near0 eps : F) (Arows : seq (seq F)) (n m : nat) (from_k to_m : nat) (Fc : fac (OpsF F)) (cnt : nat),
+  0 < near0 -> 0 <= eps -> size Arows = n ->
+  (forall x y : seq F, size x = n -> size y = n -> dot (OpsF F) (apply_op (OpsF F) Arows x) y = dot (OpsF F) x (apply_op (OpsF F) Arows y)) ->
+  (0 < from_k)%N -> (from_k < to_m <= m)%N -> (from_k <= fk (OpsF F) Fc)%N -> FullL Arows n m from_k Fc ->
+  let bt := eps * Num.sqrt (of_Z (OpsF F) (BinInt.Z.of_nat n)) in
+  let Fz := {| fV := fV (OpsF F) Fc; fH := zero_from (OpsF F) m from_k (fH (OpsF F) Fc); ff := ff (OpsF F) Fc; fbeta := fbeta (OpsF F) Fc; fk := fk (OpsF F) Fc |} in
+  nb_runL near0 eps Arows n m bt (Num.sqrt eps) (List.seq from_k (to_m - from_k)) (Fz, cnt) ->
+  exists F' cnt', [/\ lanczos_factorize_from_k (OpsF F) near0 eps Arows n m from_k to_m (Fc, cnt) = @Done _ (F', cnt'),
+                     fk (OpsF F) F' = to_m & FullL Arows n m to_m F'].
+Proof.
+move=> F near0 eps Arows n m from_k to_m Fc cnt np e0 sA sym k0 kt kf fu bt.
+exact: (@factorize_lan F near0 eps Arows n m bt (Num.sqrt eps) np e0 (Num.Theory.sqrtr_ge0 eps) sA sym from_k to_m Fc cnt (erefl _) (erefl _)).
+Qed.
+Print Assumptions C07_model_lanczos_full_invariant.
+
+(* Lanczos shares Arnoldi::init: it establishes FullL for one column unless the first residual was negligible and dropped *)
+Theorem C07_model_lanczos_init : forall (F : rcfType) (near0 eps : F) (Arows : seq (seq F)) (n m : nat) (v0 : seq F) (Fc : fac (OpsF F)) (cnt : nat),
+  0 < near0 -> 0 <= eps -> size Arows = n -> (0 < m)%N -> norm (OpsF F) (apply_op (OpsF F) Arows v0) != 0 ->
+  Arnoldi.init (OpsF F) near0 eps Arows n m v0 = @Done _ (Fc, cnt) -> FullL Arows n m 1 Fc \/ dropped n Fc.
+Proof.
+move=> F near0 eps Arows n m v0 Fc cnt np e0 sA m0 nz.
+exact: (@init_fullL F near0 eps Arows n m (Num.sqrt eps) np e0 (Num.Theory.sqrtr_ge0 eps) sA v0 Fc cnt m0 nz).
+Qed.
+Print Assumptions C07_model_lanczos_init.
